@@ -84,7 +84,7 @@ def check_exprs(dd, exprs, acc, case, workdir, renderers=RENDERERS):
 def check_deep(dd, acc, workdir):
     """Nesting far beyond Python's recursion limit (comparison by flat token
     sequences only: they determine the structure)."""
-    for depth in (300, 1500, 4000):
+    for depth in (300, 1200, 2500):
         for inner in ('x', '"a b"', '() ()'):
             text = '(assert ' + '(f ' * depth + inner + ')' * depth + ')\n(check-sat)\n'
             case = dict(text=f'<depth {depth} chain around {inner}>', depth=depth, inner=inner, kind='deep')
